@@ -619,6 +619,61 @@ def file_identity_order(run, model, rule):
                    "--input a.gom ./a.gom compiles the file twice; link then rejects the dependants (rebuild Main)")
 
 
+def _canon_expr(x, helpers, derived):
+    return any((c["k"] == "MethodCall" and c["method"] == "canonicalize") or (c["k"] in ("Call", "MethodCall") and S.callee_name(c) in helpers)
+               for c in S.walk(x)) or bool(S.idents(x) & derived)
+
+
+def file_identity_sort_key(run, model, rule):
+    """the key read_source_files sorts by is the resolved file, not the spelling (de-duplicating by file and sorting by spelling still lets the
+    spelling choose the order of two different files)"""
+    SEP = "crates/compiler/src/pipeline/separate.rs"
+    f = model.fn("read_source_files", SEP)
+    helpers = {g.name for g in model.fns("crates/compiler/src/pipeline/packages.rs") + model.fns(SEP) if g.body is not None and
+               any(c["k"] == "MethodCall" and c["method"] == "canonicalize" for c in S.walk(g.body))} - {f.name}
+    sorts = [c for c in S.walk(f.body) if c["k"] == "MethodCall" and c["method"].startswith("sort")]
+    if not sorts:
+        raise AnalysisIncomplete("read_source_files: the sort of the input files was not found")
+    lets = {}
+    for l in S.find(f.body, "Local"):
+        if l.get("init") is not None:
+            for b in S.pat_bindings(l["pat"]):
+                lets.setdefault(b, []).append(l["init"])
+    for n, c in enumerate(sorts, 1):
+        ok, how = False, "the sorted elements are the paths as spelt"
+        clos = [a for a in c["args"] if a["k"] == "Closure"]
+        if clos:
+            ok = any(_canon_expr(a["body"], helpers, set()) or any(x["k"] == "Field" and str(x.get("member")) == "0" for x in S.walk(a["body"])) for a in clos)
+            how = "sort key closure " + ("reads the resolved file" if ok else "does not read the resolved file")
+            if ok and not any(_canon_expr(a["body"], helpers, set()) for a in clos):
+                clos = []  # `.0` of an element: what is element 0? fall through to the element analysis
+                ok = False
+        keyed_by_closure = bool([a for a in c["args"] if a["k"] == "Closure"]) and bool(clos)
+        if not keyed_by_closure:
+            recv = c["recv"]
+            inits = [recv] + [i for nm in S.idents(recv) for i in lets.get(nm, [])]
+            for init in inits:
+                for mc in S.walk(init):
+                    if mc["k"] == "MethodCall" and mc["method"] in ("map", "filter_map", "flat_map"):
+                        for a in mc["args"]:
+                            if a["k"] != "Closure":
+                                continue
+                            derived = set()
+                            for l in S.find(a["body"], "Local"):
+                                if l.get("init") is not None and _canon_expr(l["init"], helpers, derived):
+                                    derived |= set(S.pat_bindings(l["pat"]))
+                            res = a["body"]
+                            if res["k"] == "Block" and res["stmts"]:
+                                last = res["stmts"][-1]
+                                res = last["expr"] if last["k"] == "ExprStmt" else res
+                            key = res["elems"][0] if res["k"] == "Tuple" and res["elems"] else res
+                            if _canon_expr(key, helpers, derived):
+                                ok, how = True, "the sorted elements lead with the resolved file"
+        run.ob(rule, f"read_source_files|sort #{n} orders by the resolved file", ok, site(SEP, c["sp"]), how,
+               witness="build --input ./Clock/b_fmt.gom Clock/a_time.gom: two different files, the spelling `./` sorts b first; the declaration order "
+                       "of the package, its DefIds and the linked Go differ from the whole-program build")
+
+
 def r13_8(run, model):
     run.rule("R13.8", "a compilation does not depend on what the process compiled before: no `static` item of the workspace holds mutable "
                       "state (static mut, atomics, locks, cells, thread_local!); write-once caches of constant data (OnceLock / LazyLock) "
@@ -662,6 +717,7 @@ def run(run, model):
     run.rule("R13.7", "the same files give the same interface however they are spelt on the command line: the file order decides DefId "
                       "numbering and export order, which are hashed, so read_source_files sorts and de-duplicates resolved files")
     run.try_rule(file_identity_order, model, "R13.7")
+    run.try_rule(file_identity_sort_key, model, "R13.7")
     run.assume("E1 resolves callees with Instance::try_resolve under TypingEnv::post_analysis on the real cargo build "
                "(dev profile, default features, lib+bin targets of all 8 workspace crates); iteration hidden behind a "
                "dyn Iterator or inside non-workspace generic code receiving a hash container by value is only seen for the "
